@@ -126,6 +126,11 @@ def _holds_only_locks(m: SharedModel, cc: str) -> bool:
                         stores.append(node.value)
             if isinstance(node, ast.Call) and isinstance(node.func, ast.Attribute) and node.func.attr == "setdefault" and isinstance(node.func.value, ast.Attribute) and node.func.value.attr == cc and len(node.args) == 2:
                 stores.append(node.args[1])
+    init = m.cls.assigns.get(cc)
+    if isinstance(init, ast.Call) and call_name(init) and call_name(init)[-1] == "defaultdict" and init.args:
+        fac = init.args[0]
+        if unparse(fac).split(".")[-1] in ("Lock", "RLock"):
+            return not stores or all(m.is_lock_expr(v) is False for v in stores)
     return bool(stores) and all(m.is_lock_expr(v) is False for v in stores)
 
 
@@ -204,6 +209,21 @@ def rule_p5(ctx: Ctx, m: SharedModel) -> None:
                     got_var[tgt.id] = node
         if isinstance(node, ast.Return) and node.value is not None:
             returns.append(node)
+    # nothing but clear_cache ever removes an entry: an evicted class would be rebuilt as a second object for an equal basis
+    for fi2 in m.funcs:
+        if fi2.name == "clear_cache":
+            continue
+        for node in walk_no_nested(fi2.node):
+            removed = None
+            if isinstance(node, ast.Delete):
+                for t in node.targets:
+                    if isinstance(t, ast.Subscript) and is_map(t.value):
+                        removed = node
+            if isinstance(node, ast.Call) and isinstance(node.func, ast.Attribute) and node.func.attr in ("pop", "popitem", "clear") and is_map(node.func.value):
+                removed = node
+            if removed is not None:
+                ctx.violation("C02-P5", fi2, m.stmt_of(fi2, removed), f"{fi2.name} removes an entry of the instance map: a class object that is still in use can be evicted, after which an equal basis denotes a second, distinct object (with its own level cache)")
+                return
     if not lookups:
         raise AnalysisError(f"{new.where}: identity-map lookup not recognised")
     keys = {k for _kind, k, _n in lookups}
